@@ -291,11 +291,6 @@ theorem unfoldA_set_frame {h : Heap} {x : Addr} {o' : Obj} : ∀ {f : Nat} {a : 
     have ho' : (h.set x o')[a]? = some o := by
       rw [List.getElem?_set_ne hx.1]; exact ho
     refine unfoldA_mk ho' ?_
-    have hk2 := hk
-    revert hk2
-    generalize hkk : kids = kk
-    intro hk2
-    subst hkk
     apply mapO_congr_some _ hk
     intro c hc b hb
     obtain ⟨b', hb', hcb⟩ := mapO_mem' hk hc
